@@ -523,6 +523,10 @@ func (a *absint) eval1(v ssa.Value) ival {
 			}
 			break
 		}
+		if ic := indexSearch(x); ic != nil {
+			l := a.lenOf(ic.Call.Args[0])
+			return ival{-1, sat(l.hi - 1)}
+		}
 		if cal := x.Call.StaticCallee(); cal != nil {
 			name := cal.String()
 			switch {
@@ -1439,6 +1443,12 @@ func (a *absint) proveLTd(x, y Term, at ssa.Instruction, depth int) (bool, strin
 		return true, fmt.Sprintf("%s < %s", rx, ry)
 	}
 	fail := fmt.Sprintf("%s = %s not < %s = %s", a.termKey(x), rx, a.termKey(y), ry)
+	// contract of slices.IndexFunc / slices.Index: the result is below len(s)
+	if !x.Len && y.Len && !y.Cap {
+		if ic := indexSearch(x.V); ic != nil && len(ic.Call.Args) == 2 && (ic.Call.Args[0] == y.V || a.w.sameKey(ic.Call.Args[0], y.V)) {
+			return true, "result of " + stdCallee(&ic.Call) + " over the same slice"
+		}
+	}
 	if depth <= 0 {
 		return false, fail
 	}
@@ -1979,7 +1989,7 @@ func (a *absint) fieldLen(fn *ssa.Function, base string, f *types.Var, depth int
 					res.atRet = res.atRet.join(cur)
 				}
 			}
-			for _, s := range b.Succs {
+			for _, s := range liveSuccs(b) {
 				out := cur
 				if curLoad != nil {
 					var fs []TFact
